@@ -52,6 +52,7 @@ def parseReply (kind : String) (a b : Str) : Option Reply :=
   | "status" => (String.ofList a).toNat?.map fun n => .status n b
   | "ok" => some (.ok a)
   | "fail" => some (.fail a b)
+  | "trunc" => some (.trunc a b)
   | _ => none
 
 def showSinks (s : Sinks) : String :=
